@@ -26,7 +26,8 @@ Edits == {"none", "ridge-first-point-twice", "ridge-last-point-twice", "ridge-si
           "trench-point-twice", "segment-zero-length", "segment-zero-thickness", "polygon-vertex-twice", "polygon-zero-area",
           "min-equals-max-depth", "plume-zero-width", "spreading-zero", "slab-ridge-point-twice", "fault-vertical-zero-thickness",
           "model-range-touches-feature-bottom", "model-range-touches-feature-top", "model-range-empty",
-          "dip-zero", "dip-180", "dips-nearly-equal", "plume-eccentricity-near-one", "plume-single-section", "slab-vertical-untapered"}
+          "dip-zero", "dip-180", "dips-nearly-equal", "plume-eccentricity-near-one", "plume-single-section", "slab-vertical-untapered",
+          "slab-one-coordinate", "fault-one-coordinate"}
 Ridge(sph, e, y0, y1) ==
   CASE e = "ridge-first-point-twice"  -> << <<XY(sph, 500, y0), XY(sph, 500, y0), XY(sph, 500, y1)>> >>
     [] e = "ridge-last-point-twice"   -> << <<XY(sph, 500, y0), XY(sph, 500, y1), XY(sph, 500, y1)>> >>
@@ -53,7 +54,8 @@ SurfacePlate(sph) ==
        <<TUniform(400, "replace")>>, <<CUniform(<<7>>, "replace")>>, <<>>, <<>>)
 KinkSlabE(sph, e) ==
   Line("subducting plate", "kink",
-       IF e = "trench-point-twice" THEN <<XY(sph, 1300, 700), XY(sph, 1300, 1000), XY(sph, 1300, 1000), XY(sph, 1500, 1200)>>
+       IF e = "slab-one-coordinate" THEN <<XY(sph, 1300, 1000)>>        \* schema-valid: a trench that is a single point
+       ELSE IF e = "trench-point-twice" THEN <<XY(sph, 1300, 700), XY(sph, 1300, 1000), XY(sph, 1300, 1000), XY(sph, 1500, 1200)>>
                                    ELSE <<XY(sph, 1300, 700), XY(sph, 1300, 1000), XY(sph, 1500, 1200)>>,
        XY(sph, 2000, 800), 0, 600*Km,
        CASE e = "segment-zero-length" -> <<Segment(200*Km, <<100*Km>>, <<0>>, <<30, 60>>), Segment(0, <<100*Km>>, <<0>>, <<60>>), Segment(200*Km, <<100*Km, 50*Km>>, <<0>>, <<60>>)>>
@@ -84,6 +86,7 @@ KSEdit(sph, e) ==
     [] e = "plume-single-section" -> [F EXCEPT ![4]["coordinates"] = <<XY(sph, 250, 250)>>, ![4]["cross section depths"] = <<50*Km>>,
                                                ![4]["semi-major axis"] = <<U(sph, 100)>>, ![4]["eccentricity"] = <<Dec(5, -1)>>, ![4]["rotation angles"] = <<30>>]
     [] e = "fault-vertical-zero-thickness" -> [F EXCEPT ![6]["segments"] = <<Segment(200*Km, <<0>>, <<0>>, <<90>>)>>]
+    [] e = "fault-one-coordinate" -> [F EXCEPT ![6]["coordinates"] = <<XY(sph, 300, 250)>>]
     \* a model whose own depth range meets the feature's range in a single depth (or is empty): the overlap has no thickness
     [] e = "model-range-touches-feature-bottom" ->
          [F EXCEPT ![1]["temperature models"] = Append(@, LinearAt(200*Km, 300*Km)), ![2]["temperature models"] = Append(@, LinearAt(150*Km, 250*Km)),
